@@ -59,3 +59,43 @@ Example C09_examples :
   /\ wf (Node K_Call (Located l2) [name A_str load (Located l1); Lst [name 100 load (Located l1)]; Lst []]) = true
   /\ ctx_ok top_ctx = true.
 Proof. vm_compute. repeat split; reflexivity. Qed.
+
+(* ------------------------------------------------------------------------------------------ round 2: the PEG layer *)
+From Scenic Require Import C10.PEG C09.Peg C09.PegProofs.
+
+(* core PEG semantics = fuel-indexed deterministic interpreter `peglr` (ordered choice, greedy possessive repetition,
+   lookaheads, precise cut, pegen's memoised left recursion for the leader rules LR).
+   requires_kw analysis: an expression flagged by the analysis cannot succeed on a token stream free of the keywords K -
+   in particular every alternative Scenic adds in front of / behind a Python rule, each of which needs a Scenic keyword *)
+Theorem C09_requires_kw_sound : forall G K tbl LR e s,
+  kw_consistent G K tbl = true -> requires_kw K tbl e = true -> kwfree K s = true ->
+  forall fuel s', peglr fuel G LR e s <> Some (Some s').
+Proof. exact requires_kw_sound_lr. Qed.
+Print Assumptions C09_requires_kw_sound.
+
+(* conservative extension (core PEG): if every Python rule is, in the Scenic grammar, the same rule with extra
+   alternatives that all require a keyword of K (ext_grammar, decidable: evaluated by the kernel), then on a K-free
+   token stream every terminating run of the Scenic grammar has exactly the result (failure, or success with the same
+   remaining input) of the Python grammar *)
+Theorem C09_conservative_extension : forall K tbl Gs Gp LR start s,
+  ext_grammar K tbl Gs Gp = true -> kw_consistent Gs K tbl = true ->
+  refs_defined Gp (PRule start) = true -> kwfree K s = true ->
+  forall fuel r, peglr fuel Gs LR (PRule start) s = Some r -> exists fuel', peglr fuel' Gp LR (PRule start) s = Some r.
+Proof. exact conservative_extension_rule. Qed.
+Print Assumptions C09_conservative_extension.
+
+Theorem C09_extension_agrees : forall K tbl Gs Gp LR es ep s,
+  ext_grammar K tbl Gs Gp = true -> kw_consistent Gs K tbl = true ->
+  ext_check K tbl es ep = true -> refs_defined Gp ep = true -> kwfree K s = true ->
+  forall f1 f2 r1 r2, peglr f1 Gs LR es s = Some r1 -> peglr f2 Gp LR ep s = Some r2 -> r1 = r2.
+Proof. exact ext_agree. Qed.
+Print Assumptions C09_extension_agrees.
+
+Theorem C09_peg_deterministic_in_fuel : forall n G LR e s r, peglr n G LR e s = Some r ->
+  forall m, (n <= m)%nat -> peglr m G LR e s = Some r.
+Proof. exact peglr_mono. Qed.
+Print Assumptions C09_peg_deterministic_in_fuel.
+
+Example C09_peg_examples :
+  ext_grammar Ex.K Ex.tbl Ex.Gs Ex.Gp = true /\ kw_consistent Ex.Gs Ex.K Ex.tbl = true /\ kwfree Ex.K [Ex.NAME; Ex.EQ; Ex.NUMBER] = true.
+Proof. vm_compute. repeat split; reflexivity. Qed.
